@@ -214,6 +214,10 @@ IgnoredAreNoOps == Done =>
     Canon(State) = Canon(FinalState(gene, SelectSeq(file, LAMBDA r : HasEffect(gene, r))))
 IgnoredStepNoOp ==
     [][(Len(file') = Len(file) + 1 /\ ~HasEffect(gene, file'[Len(file')])) => UNCHANGED <<norm, muts>>]_vars
+(* Stated for what the property names: the REF allele of a record whose one-base REF differs from  *)
+(* the RefSeq-derived reference (when it is called), and one-base substitution ALTs of such a      *)
+(* record (never spelled against the file's REF).  Nothing is demanded of the anchor base of an     *)
+(* indel ALT.                                                                                       *)
 RefMismatchReexpressed == Done =>
     LET E == Eff(gene, file) IN
     \A i \in DOMAIN file : LET r == file[i] IN (Counted(gene, r) /\ RefMismatch(gene, r)) =>
